@@ -24,6 +24,11 @@ def model_agrees(rec, proj=None, final_keys=("cv", "ch", "cc")):
     compared by CTRACEP) values that depend on the interleaving of the uncompared steps are skipped."""
     out = []
     v = rec["V"] or ""
+    if rec.get("U"):
+        # the harness could not identify the level's shared objects with the model's (an object was added, removed or
+        # changed its use): a broken tie, not by itself a failure of the property
+        out.append("shared objects of the implementation do not match Model/Conc.v: " + "; ".join(rec["U"])[:300])
+        return out
     if rec["X"]:
         return out            # aborted runs are handled by the judges
     if not v.startswith("accepted"):
